@@ -6,9 +6,10 @@ cp $wt/_seed/demo.py $d/ ; cp $wt/_seed/meta.json $d/agent_meta.json
 export NUMBA_CACHE_DIR=$wt/.nbcache
 cd $wt && git diff -- moptipyapps > $d/patch.diff
 PYTHONPATH=$wt timeout 600 /venv/bin/python _seed/demo.py > /tmp/_demo_with.log 2>&1; with=$?
-git stash -q
+# (not `git stash`: the stash is shared by all worktrees of a repository)
+git apply -R $d/patch.diff
 PYTHONPATH=$wt timeout 600 /venv/bin/python _seed/demo.py > /tmp/_demo_without.log 2>&1; without=$?
-git stash pop -q
+git apply $d/patch.diff
 echo "$name: demo with change: exit=$with ; without: exit=$without"
 tres="not run"
 if [ -n "$tests" ]; then
